@@ -28,7 +28,7 @@ UNIT = "syn"
 
 PINNED = [
     "format_spec_roundtrip", "render_writes_representation",
-    "slice_is_token_text", "slice_refuted", "slice_panics",
+    "slice_is_token_text", "line_offsets_spec", "slice_refuted", "slice_panics",
 ]
 
 # FIXED in /repo (a fixed entry suppresses nothing; the witnesses stay in corpus/C11 and a recurrence is a VIOLATION):
@@ -46,6 +46,11 @@ KNOWN = {
                               "`[0]`) or the rest is re-indented differently on every pass",
     "multi_line_chain_root": "C11h a bracketed literal that spans several lines and is continued by `.method()` is printed "
                              "with the `.method()` at column 0: the output does not parse",
+    "leading_blank_lines": "C11i a source that starts with two or more line breaks keeps one leading blank line, which the next "
+                           "pass removes (not idempotent)",
+    "comma_before_operator": "C11j a comma that is directly followed by a binary operator or `=` (`f 1, / 2`: an elided "
+                             "argument in a parenthesis-free call) is dropped: the output parses to a different tree or not at "
+                             "all",
     "wrap_forced": "C11d when a line has to be wrapped (it is longer than line_length) the formatter can emit text that does "
                    "not parse or parses differently (`then` of a match arm on its own line, arguments of a parenthesis-free "
                    "call moved to continuation lines, ...) and is not idempotent",
@@ -135,6 +140,48 @@ def mutants(rng, text, n):
         m = "\n".join(ls)
         if m != text:
             out.append(m)
+    return out
+
+
+def line_variants(text, rng):
+    """the same program in other line-ending / end-of-file / comment-white-space conventions.  The clauses of
+    C11 apply unchanged to every one of them."""
+    out = []
+    if "\r" in text:
+        return out
+    out.append(("crlf", text.replace("\n", "\r\n")))
+    out.append(("mixed", "".join(ch if ch != "\n" else rng.choice(["\n", "\r\n"]) for ch in text)))
+    out.append(("nofinal", text.rstrip("\n")))
+    out.append(("trailing", text + rng.choice(["\n\n\n", "\n  \n", "\r\n\r\n"])))
+    out.append(("leading", rng.choice(["\n", "\r\n", "\n\n"]) + text))
+    if text.isascii() and "#" in text:
+        t2 = re.sub(r"#[^\n]*", lambda m: m.group(0).replace(" ", "\t"), text)
+        if t2 != text:
+            out.append(("tabs", t2))
+    return [(k, v) for k, v in out if v != text]
+
+
+def slice_sources(rng, n):
+    """programs made of `v<k> = <number> + <number> # c<k>` lines in random line-ending conventions: every number
+    literal and every comment is re-read by the formatter through FormatContext::line_offsets + column"""
+    out = []
+    for _ in range(n):
+        lines = []
+        for k in range(2 + rng.below(4)):
+            a = rng.choice(["1250", "3000", "7", "0x1f", "1.5", "99", "100000"])
+            b = rng.choice(["3000", "42", "8", "0b101", "2.25e3", "5"])
+            ind = ""
+            lines.append(f"{ind}v{k} = {a} + {b} # c{k} sum")
+            if rng.chance(1, 4):
+                lines.append(rng.choice(["", "# only a comment", "  "]))
+        conv = rng.below(4)
+        src = ""
+        for i, ln in enumerate(lines):
+            eol = ["\n", "\r\n", rng.choice(["\n", "\r\n"]), "\r\n"][conv]
+            src += ln + eol
+        if rng.chance(1, 4):
+            src = src.rstrip("\r\n")
+        out.append(src)
     return out
 
 
@@ -246,7 +293,7 @@ def run(tier, seed):
     quick = tier == "quick"
     cases, meta, dist = [], [], {}
 
-    def add_prog(origin, text, runnable, nopts):
+    def add_one(origin, text, runnable, nopts):
         if nopts >= len(GRID):
             opts = GRID
         else:
@@ -256,6 +303,15 @@ def run(tier, seed):
             meta.append({"origin": origin, "opts": o, "runnable": runnable})
         k = origin.split(":")[0]
         dist[k] = dist.get(k, 0) + 1
+
+    def add_prog(origin, text, runnable, nopts, nvariants=None):
+        """the program itself + its line-ending variants (all of them for nvariants=None, else a seeded pick)"""
+        add_one(origin, text, runnable, nopts)
+        vs = line_variants(text, rng)
+        if nvariants is not None and len(vs) > nvariants:
+            vs = [vs[(rng.below(len(vs)) + i) % len(vs)] for i in range(nvariants)]
+        for tag, v in vs:
+            add_one(f"eol-{tag}:{origin}", v, runnable, 1 if quick else min(nopts, 4))
 
     # 1. committed corpus
     d = os.path.join(C.VERIF, "corpus", PID)
@@ -269,12 +325,12 @@ def run(tier, seed):
     # 2. the repository's own programs
     repo = repo_programs()
     for origin, text in repo:
-        add_prog(origin, text, False, 3 if quick else len(GRID))
+        add_prog(origin, text, False, 3 if quick else len(GRID), 1 if quick else None)
     # 3. snippets covering the syntax + their mutants
     for i, sn in enumerate(SNIPPETS):
         add_prog(f"snippet:{i}", sn, False, 4 if quick else len(GRID))
         for m in mutants(rng, sn, 6 if quick else 40):
-            add_prog(f"mutant:snippet{i}", m, False, 1 if quick else 6)
+            add_prog(f"mutant:snippet{i}", m, False, 1 if quick else 6, 1 if quick else 3)
     # 4. generated programs in randomised layouts (runnable)
     nprog = 60 if quick else 500
     for pi in range(nprog):
@@ -283,15 +339,18 @@ def run(tier, seed):
         for li in range(3 if quick else 10):
             flags = tuple(f for f in G.TRIVIA + G.STRUCT if rng.chance(1, 2))
             text = G.text_of(G.render(prog, G.Layout(rng, flags)))
-            add_prog(f"generated-layout:{pi}.{li}", text, True, 2 if quick else 6)
+            add_prog(f"generated-layout:{pi}.{li}", text, True, 2 if quick else 6, 2 if quick else None)
             if li == 0:
                 for m in mutants(rng, text, 4 if quick else 20):
-                    add_prog(f"mutant:generated{pi}", m, False, 1 if quick else 3)
+                    add_prog(f"mutant:generated{pi}", m, False, 1 if quick else 3, 1)
     # 5. mutants of repository files
     for origin, text in repo:
         if len(text) < 4000:
             for m in mutants(rng, text, 2 if quick else 12):
-                add_prog("mutant:" + origin, m, False, 1 if quick else 3)
+                add_prog("mutant:" + origin, m, False, 1 if quick else 3, 1)
+    # 6. number literals and comments on later lines, in every line-ending convention (runnable)
+    for i, src in enumerate(slice_sources(rng, 40 if quick else 400)):
+        add_one(f"slice-src:{i}", src, True, 1 if quick else 4)
 
     chk.log(f"{len(cases)} formatter runs over {sum(dist.values())} programs: {dist}")
     try:
@@ -422,44 +481,62 @@ def correspondence(chk, binp, tier, rng):
         if not same:
             dis.append({"spec": s, "model_says": want, "impl_says": got})
     chk.oblige("corr:format-option model vs koto_parser + koto_format on option strings", not dis, f"{len(dis)} disagreements")
-    # -- slices
+    # -- slices: every number literal and comment of small sources (non-ASCII prefixes, several lines, every
+    # line-ending convention): the model's span = the lexer's span, and the formatter's output = the source with
+    # each such token replaced by the MODEL's slice (which goes through the model of FormatContext::new's
+    # line_offsets table), or both panic
+    pres = ["", "x = ", "é = ", "x日本 = ", "a\n  b = ", "'é' + ", "# c\nx = ", "s = 'héé' + ", "ééé=", "'日本日本日' + ",
+            "a = 1\r\nb = ", "# é\r\n\r\nx = "]
     # (wide characters only in non-initial position of an identifier: the lexer counts the FIRST character of an
     # identifier as one column whatever its width, which SliceModel.tok_span -- "sum of widths" -- does not model;
     # such prefixes are outside slice_is_token_text's hypothesis anyway)
-    pres = ["", "x = ", "é = ", "x日本 = ", "a\n  b = ", "'é' + ", "# c\nx = ", "s = 'héé' + ", "ééé=", "'日本日本日' + "]
     nums = ["99", "1", "0x1f", "1.5"]
-    scases = [(p, n) for p in pres for n in nums]
-    sres = G.run_sharded(binp, [{"mode": "slice", "src": p + n + "\n"} for p, n in scases], "c11l")
+    sources = [p + n + e for p in pres for n in nums for e in ("\n", "\r\n")][::2] + slice_sources(rng, 12 if tier == "quick" else 150)
+    sres = G.run_sharded(binp, [{"mode": "slice", "src": s} for s in sources], "c11l")
     wtab = "[(233, 1); (26085, 2); (26412, 2)]"
-    terms = [f"run_slice {wtab} {C.coq_list([ord(c) for c in p])} {C.coq_list([ord(c) for c in n])} [10]" for p, n in scases]
+    terms, owner = [], []
+    for si, (s, r) in enumerate(zip(sources, sres)):
+        bs = s.encode("utf-8")
+        for ti, t in enumerate(r["toks"]):
+            if t[0] in ("Number", "CommentSingle"):
+                pre, tok, post = bs[:t[5]].decode("utf-8"), bs[t[5]:t[6]].decode("utf-8"), bs[t[6]:].decode("utf-8")
+                terms.append(f"run_slice {wtab} {C.coq_list([ord(ch) for ch in pre])} {C.coq_list([ord(ch) for ch in tok])} "
+                             f"{C.coq_list([ord(ch) for ch in post])}")
+                owner.append((si, ti))
     try:
-        vals = C.coq_eval(UNIT, "From KV.syn Require Import SynBase SliceModel FmtRun.\nFrom Coq Require Import NArith List.\nImport ListNotations.\nOpen Scope N_scope.\n", terms, tag="c11l")
+        vals = C.coq_eval(UNIT, "From KV.syn Require Import SynBase SliceModel FmtRun.\nFrom Coq Require Import NArith List.\nImport ListNotations.\nOpen Scope N_scope.\n", terms, tag="c11l", per_shard=40)
     except RuntimeError as e:
         chk.log(str(e)[-2000:])
         chk.oblige("corr:slice model evaluates", False)
         return dis
+    model = {}
+    for (si, ti), v in zip(owner, vals):
+        model[(si, ti)] = decode_slice_model(v)
     d2 = []
-    for (p, n), r, v in zip(scases, sres, vals):
-        chk.count_case("slice:" + p + n, True)
-        m = decode_slice_model(v)
-        numtok = [t for t in r["toks"] if t[0] == "Number"]
-        if not numtok:
-            continue
-        t = numtok[-1]
-        span = [t[1], t[2], t[3], t[4]]
-        if m["span"] != span:
-            d2.append({"src": p + n, "model_span": m["span"], "lexer_span": span})
-            continue
-        # what the formatter printed for the number: the model's slice must occur in the output, or both panic
-        if m["panic"] != (r.get("fmt") == "panic"):
-            # the formatter only slices numbers it reaches; a panic elsewhere (comments) is also a slice panic
-            if not (r.get("fmt") == "panic"):
-                d2.append({"src": p + n, "model": "panic", "impl": r.get("text")})
-        elif not m["panic"] and r.get("fmt") == "ok":
-            sl = "".join(chr(c) for c in m["slice"])
-            if sl.strip() and sl.strip() not in r["text"]:
-                d2.append({"src": p + n, "model_slice": sl, "impl_text": r["text"]})
-    chk.oblige("corr:slice model vs koto_lexer spans + koto_format output", not d2, f"{len(d2)} disagreements")
+    nows = lambda x: "".join(x.split())
+    for si, (s, r) in enumerate(zip(sources, sres)):
+        chk.count_case("slice:" + s, True)
+        bs = s.encode("utf-8")
+        texts, panic, bad_span = [], False, None
+        for ti, t in enumerate(r["toks"]):
+            if t[0] in ("Whitespace", "NewLine"):
+                continue
+            m = model.get((si, ti))
+            if m is None:
+                texts.append(bs[t[5]:t[6]].decode("utf-8"))
+                continue
+            if m["span"] != [t[1], t[2], t[3], t[4]]:
+                bad_span = {"src": s, "token": bs[t[5]:t[6]].decode("utf-8"), "model_span": m["span"], "lexer_span": [t[1], t[2], t[3], t[4]]}
+            panic = panic or m["panic"]
+            texts.append("".join(chr(cp) for cp in m["slice"]))
+        if bad_span:
+            d2.append(bad_span)
+        elif panic != (r.get("fmt") == "panic"):
+            d2.append({"src": s, "model": "panic" if panic else "no panic", "impl": r.get("fmt"), "impl_text": r.get("text")})
+        elif not panic and r.get("fmt") == "ok" and nows("".join(texts)) != nows(r["text"]):
+            d2.append({"src": s, "model_output_modulo_white_space": nows("".join(texts)), "impl_text": r["text"]})
+    chk.oblige("corr:slice model (line_offsets + column) vs koto_lexer spans + koto_format output", not d2,
+               f"{len(d2)} disagreements")
     return dis + d2
 
 
